@@ -243,7 +243,7 @@ def extra_checks(tier, scratch):
         scans = [t for t in astx.find(tree, lambda x: x[0] == 'forrange' and x[1] == ('var', 'data'))
                  if astx.find(t[2], lambda y: y[0] == 'expr' and y[1][0] == 'bin' and y[1][1] == '=' and y[1][2] in (('var', 'dim'), ('var', 'compositions'), ('var', 'grain_compositions'), ('var', 'n_grains'), ('var', 'convert_spherical')))]
         ctx.asserts += 1
-        if len(scans) != 1: ctx.violations.append(dict(kind='assert', what='one loop over all lines of the data file reads the "#" option lines', detail='found %d such loops' % len(scans), inputs=[], native=None))
+        if len(scans) != 1: ctx.notes.append(('shape', 'expected one loop over the lines of the data file that assigns the option variables, found %d' % len(scans)))
         else:
             opts = set(y[1][2][1] for y in astx.find(scans[0][2], lambda y: y[0] == 'expr' and y[1][0] == 'bin' and y[1][1] == '='))
             early = astx.find(scans[0][2], lambda y: y[0] in ('break', 'continue', 'return'))
@@ -267,11 +267,11 @@ def extra_checks(tier, scratch):
                 for x in t: scan(x)
         scan(tree)
         ctx.asserts += 2
-        if not conv: ctx.violations.append(dict(kind='assert', what='data row tokens are converted to numbers by the strict converters', detail='no conversion of a data token found in main', inputs=[], native=None))
         LENIENT = {'stod', 'stof', 'stold', 'atof', 'strtod', 'strtof', 'strtold', 'stoi', 'stol', 'stoul', 'stoll', 'stoull', 'atoi', 'atol', 'atoll', 'strtol', 'strtoul', 'strtoll', 'strtoull', 'sscanf', 'operator>>', 'from_chars'}
         ctx.asserts += 1
         n_strict = sum(1 for c in conv if c in STRICT)
-        if n_strict < 7: ctx.violations.append(dict(kind='assert', what='data row tokens are converted to numbers by the strict converters', detail='only %d strict conversions of data tokens (2D: x, z, depth; 3D: x, y, z, depth)' % n_strict, inputs=[], native=None))
+        # fewer recognised strict conversions than coordinates is an unknown shape (e.g. tokens copied into locals first), not evidence of a defect: no verdict
+        if n_strict < 7 and not any(c in LENIENT for c in conv): ctx.notes.append(('shape', 'only %d conversions of data tokens by the strict converters recognised (2D: x, z, depth; 3D: x, y, z, depth)' % n_strict))
         bad = sorted(set(str(c) for c in conv if c in LENIENT))
         if bad: ctx.violations.append(dict(kind='assert', what='data row tokens are converted to numbers by the strict converters', detail='converted by: ' + ', '.join(bad), inputs=[], native=None))
         r['samples'].append(dict(obligation='C17.cols', token_conversions=sorted(set(str(c) for c in conv))))
